@@ -60,7 +60,7 @@ impl SonicKZG10 {
                 && forall|k: int| 0 <= k < m[d]@.len() ==> (#[trigger] m[d]@[k]) == pp.powers_of_gamma_g@[(pp.powers_of_g@.len() - 1 - d + k) as usize] }),   // name=sonic_pc.trim.shifted_hiding_powers props=C04,C09
 //@body
 //@rw * /pp\.powers_of_gamma_g\[&(\(?[\w +]+\)?)\]/ => btree_index(&pp.powers_of_gamma_g, &\1)
-//@rw * /neg_powers_of_h\[&\(max_degree - \*bound\)\]/ => btree_index_g2(neg_powers_of_h, &(max_degree - *bound))
+//@rw * /neg_powers_of_h\[&(\([^\]]+\))\]/ => btree_index_g2(neg_powers_of_h, &\1)
 //@rw * /v\.sort\(\);/ => sort_usize(&mut v);
 //@rw * /v\.dedup\(\);/ => dedup_usize(&mut v);
 //@rw * /for degree_bound in enforced_degree_bounds \{/ => for degree_bound in enforced_degree_bounds.iter() {
